@@ -536,3 +536,157 @@ UNITS += [
          assumptions=["host path only (the device loop copies through a staging buffer; not in this build)", "<= 4 streams and <= 8 items in the harness (the loops themselves are closed by loop contracts)", "instantiated for integer tallies"],
          note="accumulate_over_streams (host part; used by SimpleCalo, ActionDiagnostic, StepDiagnostic): result[i] += sum over ALL allocated streams of that stream's tally i, for any allocation pattern of the lazily created per-stream states"),
 ]
+
+
+# ---------------------------------------------------------------------------
+# DetectorSteps.cc (host): compaction of the delivered steps into the output handed to the hit processor
+# ---------------------------------------------------------------------------
+DSC = "src/celeritas/user/DetectorSteps.cc"
+DS_MODEL = """
+#include <stdlib.h>
+#define INVALID_ID ((size_type)-1)
+#define NSLOT 8
+typedef size_type DetectorId;
+typedef struct { DetectorId const* ptr; size_type size; } DetectorRef;          /* StateCollection<DetectorId, reference, host> */
+/* number of valid detector ids among the first i slots (the specification of count_num_valid and of the compaction index) */
+#define V_(k) ((size_type)(g_det[k] != INVALID_ID))
+#define CNT(i) ((i) == 0 ? 0 : (i) == 1 ? V_(0) : (i) == 2 ? V_(0) + V_(1) : (i) == 3 ? V_(0) + V_(1) + V_(2) : (i) == 4 ? V_(0) + V_(1) + V_(2) + V_(3) : (i) == 5 ? V_(0) + V_(1) + V_(2) + V_(3) + V_(4) \\
+   : (i) == 6 ? V_(0) + V_(1) + V_(2) + V_(3) + V_(4) + V_(5) : (i) == 7 ? V_(0) + V_(1) + V_(2) + V_(3) + V_(4) + V_(5) + V_(6) : V_(0) + V_(1) + V_(2) + V_(3) + V_(4) + V_(5) + V_(6) + V_(7))
+DetectorId g_det[NSLOT]; size_type g_n;       /* the step state's detector ids (one per track slot) */
+"""
+CNV_RULES = [
+    Rule(r"size_type size\{0\};", "size_type size = 0;", 1, note="brace initialisation"),
+    Rule(r"for \(DetectorId id : detector\[AllItems<DetectorId>\{\}\]\)\s*\{", "for (size_type k_ = 0; k_ < detector->size; ++k_)\n    {\n        DetectorId id = detector->ptr[k_];", 1, note="range-for over all items -> index loop"),
+    Rule(r"if \(id\)", "if (id != INVALID_ID)", 1, note="OpaqueId::operator bool"),
+    LoopContracts(["    __CPROVER_assigns(k_, size)\n    __CPROVER_loop_invariant(k_ <= g_n && size == CNT(k_))\n    __CPROVER_decreases(g_n - k_)\n"]),
+]
+
+
+def build_count_valid(ctx):
+    pc = ctx.func(DSC, r"^size_type count_num_valid\(DetectorRef const& detector\)", CNV_RULES, name="count_num_valid (host)")
+    return (HDR + DS_MODEL + """
+size_type count_num_valid(DetectorRef const* detector)
+__CPROVER_requires(detector != 0 && detector->ptr == g_det && detector->size == g_n && g_n <= NSLOT)
+__CPROVER_assigns()
+/* the number of slots that carry a detector id, i.e. the number of steps to deliver */
+__CPROVER_ensures(__CPROVER_return_value == CNT(g_n))
+{""" + pc.body + """}
+void h_cnv(void)
+{
+    DetectorRef d = {g_det, g_n};
+    count_num_valid(&d);
+    VERIF_CANARY();
+}
+""")
+
+
+AF_MODEL = """
+typedef real_type T;
+typedef struct { T* ptr; size_type size_; } VecT;                  /* DetectorStepOutput::vector<T> (storage of NSLOT elements in the harness) */
+typedef struct { T const* ptr; size_type size; } StateRefT;        /* StateCollection<T, reference, host>; size 0 = attribute not selected */
+size_type g_w; T g_src_w;     /* ghost: a witness slot and its source value */
+static void VEC_clear(VecT* v) { v->size_ = 0; }
+static void VEC_resize(VecT* v, size_type n) { __CPROVER_assert(n <= NSLOT, "vector resize within the harness storage"); v->size_ = n; }
+"""
+AF_RULES = [
+    Rule(r"src\.empty\(\)", "(src->size == 0)", 1, note="Collection::empty()"),
+    Rule(r"dst->clear\(\);", "VEC_clear(dst);", 1, note="std::vector::clear"),
+    Rule(r"for \(TrackSlotId tid : range\(TrackSlotId\{src\.size\(\)\}\)\)", "for (size_type tid = 0; tid < src->size; ++tid)", 1, note="range-for over track slots -> counting loop"),
+    Rule(r"src\.size\(\)", "src->size", "*", note="Collection::size()"),
+    Rule(r"dst->resize\(([^;]*)\);", r"VEC_resize(dst, \1);", "*", note="std::vector::resize"),
+    Rule(r"auto iter = dst->begin\(\);", "T* iter = dst->ptr;", 1, note="vector iterator -> pointer"),
+    Rule(r"if \(detector\[tid\]\)", "if (DET_at(detector, tid) != INVALID_ID)", 1, note="Collection[tid] (asserts tid < size); OpaqueId::operator bool"),
+    Rule(r"\*iter\+\+ = src\[tid\];", "{ __CPROVER_assert(iter < dst->ptr + dst->size_, \"output iterator within the resized vector\"); *iter++ = src->ptr[tid]; }", 1, note="checked output iterator (std::vector iterators are unchecked; the bound is the property)"),
+    Rule(r"dst->end\(\)", "(dst->ptr + dst->size_)", 1, note="vector end"),
+    LoopContracts([
+        "    __CPROVER_assigns(tid, iter, __CPROVER_object_whole(dst->ptr))\n"
+        "    __CPROVER_loop_invariant(tid <= g_n && __CPROVER_same_object(iter, dst->ptr) && iter == dst->ptr + CNT(tid))\n"
+        "    __CPROVER_loop_invariant((g_w < tid && g_det[g_w] != INVALID_ID) ==> dst->ptr[CNT(g_w)] == g_src_w)\n"
+        "    __CPROVER_decreases(g_n - tid)\n"]),
+]
+
+
+def build_assign_field(ctx):
+    pc = ctx.func(DSC, r"^void assign_field\(DetectorStepOutput::vector<T>\* dst,", AF_RULES, name="assign_field<T> (host)")
+    return (HDR + DS_MODEL + AF_MODEL + """
+static DetectorId DET_at(DetectorRef const* d, size_type i) { __CPROVER_assert(i < d->size, "celer_expect: Collection::operator[] i < size"); return d->ptr[i]; }
+void assign_field(VecT* dst, StateRefT const* src, DetectorRef const* detector, size_type size)
+__CPROVER_requires(dst != 0 && src != 0 && detector != 0 && detector->ptr == g_det && detector->size == g_n && g_n <= NSLOT && __CPROVER_rw_ok(dst->ptr, NSLOT * sizeof(T)))
+__CPROVER_requires((src->size == 0 || src->size == g_n) && __CPROVER_r_ok(src->ptr, NSLOT * sizeof(T)) && size == CNT(g_n))       /* size comes from count_num_valid */
+__CPROVER_requires(g_w < g_n && (src->size != 0 ==> (g_src_w == src->ptr[g_w] && !__CPROVER_isnand(g_src_w))))
+__CPROVER_assigns(dst->size_, __CPROVER_object_whole(dst->ptr))
+/* an unselected attribute is emptied; a selected one gets exactly one entry per delivered step ... */
+__CPROVER_ensures(dst->size_ == (src->size == 0 ? 0 : size))
+/* ... and the k-th delivered step (slots in increasing order) carries the value of ITS slot */
+__CPROVER_ensures((src->size != 0 && g_det[g_w] != INVALID_ID) ==> dst->ptr[CNT(g_w)] == g_src_w)
+{""" + pc.body + """}
+void h_af(void)
+{
+    T out[NSLOT], in[NSLOT]; size_type nsrc, sz, w; VecT d = {out, 0}; StateRefT s = {in, nsrc}; DetectorRef det = {g_det, g_n};
+    g_w = w; if (w < NSLOT) g_src_w = in[w];
+    assign_field(&d, &s, &det, sz);
+    VERIF_CANARY();
+}
+""")
+
+
+CS_MODEL = """
+typedef struct { size_type size_; } Vec;                       /* an output vector: only its size matters here */
+typedef struct { Vec time, pos, dir, energy; } DetectorStepPointOutput;
+typedef struct { DetectorStepPointOutput points[2]; Vec detector, track_id, event_id, parent_id, track_step_count, step_length, particle, energy_deposition; } DetectorStepOutput;
+typedef struct { bool time, pos, dir, energy; } StepPointSel;
+typedef struct { StepPointSel points[2]; bool detector, track_id, event_id, parent_id, track_step_count, step_length, particle, energy_deposition; } StepSel;   /* which state collections are non-empty */
+typedef struct { StepSel data; } StepState;
+size_type g_count;     /* ghost: what count_num_valid returns = number of slots with a detector */
+unsigned g_assigned;   /* ghost: number of assign_field calls */
+static size_type count_num_valid_(bool det_selected) { return g_count; }
+/* assign_field: contract enforced in c17_assign_field (size of the destination: 0 if the attribute is unselected, else `size`) */
+static void assign_field_(Vec* dst, bool selected, bool det_selected, size_type size) { dst->size_ = selected ? size : 0; ++g_assigned; }
+#define ENUM_SP_size_ 2
+"""
+CS_RULES = [
+    Rule(r"CELER_EXPECT\(output\);", "CELER_EXPECT(output != 0);", 1, note="pointer check"),
+    Rule(r"count_num_valid\(state\.data\.detector\)", "count_num_valid_(state->data.detector)", 1, note="call -> contract (c17_count_num_valid)"),
+    Rule(r"assign_field\(&\(output->FIELD\), state\.data\.FIELD, state\.data\.detector, size\)", "assign_field_(&(output->FIELD), state->data.FIELD, state->data.detector, size)", 1, note="call -> contract (c17_assign_field); the macro is kept as a macro"),
+    Rule(r"for \(auto sp : range\(StepPoint::size_\)\)", "for (int sp = 0; sp < ENUM_SP_size_; ++sp)", 1, note="range over the StepPoint enum (2 values, bound)"),
+    Rule(r"output->(\w+)\.size\(\)", r"output->\1.size_", "*", note="vector size"),
+]
+
+
+def build_copy_steps(ctx):
+    pc = ctx.func(DSC, r"^void copy_steps<MemSpace::host>\(\s*DetectorStepOutput\* output,", CS_RULES, generic=True, name="copy_steps<MemSpace::host>")
+    return (HDR + CS_MODEL + """
+#define SZ(f, sel) (output->f.size_ == ((sel) ? g_count : 0))
+void copy_steps_host(DetectorStepOutput* output, StepState const* state)
+__CPROVER_requires(__CPROVER_rw_ok(output, sizeof(*output)) && state != 0 && state->data.detector && state->data.track_id && g_assigned == 0)     /* detector and track ids are always gathered */
+__CPROVER_assigns(*output, g_assigned)
+/* after EVERY call -- also one that delivers no step -- the output holds exactly the steps of THIS iteration: each selected attribute has one entry per delivered step
+   and each unselected one is empty (so nothing of a previous iteration can be delivered again) */
+__CPROVER_ensures(SZ(detector, 1) && SZ(track_id, 1) && SZ(event_id, state->data.event_id) && SZ(parent_id, state->data.parent_id) && SZ(track_step_count, state->data.track_step_count)
+                  && SZ(step_length, state->data.step_length) && SZ(particle, state->data.particle) && SZ(energy_deposition, state->data.energy_deposition))
+__CPROVER_ensures(SZ(points[0].time, state->data.points[0].time) && SZ(points[0].pos, state->data.points[0].pos) && SZ(points[0].dir, state->data.points[0].dir) && SZ(points[0].energy, state->data.points[0].energy)
+                  && SZ(points[1].time, state->data.points[1].time) && SZ(points[1].pos, state->data.points[1].pos) && SZ(points[1].dir, state->data.points[1].dir) && SZ(points[1].energy, state->data.points[1].energy))
+__CPROVER_ensures(g_assigned == 16)
+{""" + pc.body + """}
+void h_cs(void)
+{
+    DetectorStepOutput o; StepState s;
+    copy_steps_host(&o, &s);
+    VERIF_CANARY();
+}
+""")
+
+
+UNITS += [
+    Unit("c17_count_num_valid", build_count_valid, "h_cnv", enforce="count_num_valid", loop_contracts=True, timeout=300, unwind=10, must_have=[r"count_num_valid.postcondition", r"loop_invariant_step"], checks=CHECKS,
+         assumptions=["<= 8 track slots in the harness (the loop is closed by a loop contract; the count specification is written out for 8 slots)"],
+         note="count_num_valid (host): the number of slots that carry a detector id"),
+    Unit("c17_assign_field", build_assign_field, "h_af", enforce="assign_field", loop_contracts=True, timeout=600, unwind=10, object_bits=10, backend=["sat", "kissat", "cvc5"],
+         must_have=[r"assign_field.postcondition", r"loop_invariant_step", r"celer_assert", r"output iterator within"], checks=CHECKS,
+         assumptions=["<= 8 track slots in the harness", "std::vector modelled as pointer + size over harness storage"],
+         note="assign_field<T> (host): an unselected attribute is cleared; otherwise the output has one entry per delivered step, the k-th delivered step (slot order) carries its own slot's value, the output iterator stays inside the vector and ends exactly at its end"),
+    Unit("c17_copy_steps_host", build_copy_steps, "h_cs", enforce="copy_steps_host", timeout=300, unwind=4, object_bits=10, backend=["sat", "cvc5"],
+         must_have=[r"copy_steps_host.postcondition", r"celer_ensure", r"celer_expect"], checks=CHECKS,
+         assumptions=["count_num_valid / assign_field by their contracts (c17_count_num_valid, c17_assign_field)"],
+         note="copy_steps<host>: after every call, also one with zero delivered steps, each selected output attribute has exactly one entry per delivered step and each unselected one is empty; all 16 attributes are (re)assigned; both CELER_ENSUREs hold"),
+]
